@@ -43,6 +43,14 @@ class Collector(ast.NodeVisitor):
         elif n.value is True or n.value is False: self.sites.append(("flag", n.lineno, n.col_offset, 0))
     def visit_AugAssign(self, n):
         if type(n.op) in (ast.Add, ast.Sub): self.sites.append(("aug", n.lineno, n.col_offset, 0))
+        self.sites.append(("del", n.lineno, n.col_offset, 1)); self.generic_visit(n)
+    def visit_Assign(self, n):
+        # a forgotten update: assignments to attributes / subscripts (state), not to local names
+        if any(isinstance(t, (ast.Attribute, ast.Subscript)) for t in n.targets): self.sites.append(("del", n.lineno, n.col_offset, 1))
+        self.generic_visit(n)
+    def visit_Expr(self, n):
+        if isinstance(n.value, ast.Call) and isinstance(n.value.func, ast.Attribute) and n.value.func.attr not in ("log", "append_log", "add_step", "print"):
+            self.sites.append(("del", n.lineno, n.col_offset, 1))
         self.generic_visit(n)
 
 class Mutator(ast.NodeTransformer):
@@ -71,6 +79,15 @@ class Mutator(ast.NodeTransformer):
     def visit_AugAssign(self, n):
         self.generic_visit(n)
         if self.hit(n, "aug"): n.op = ast.Sub() if isinstance(n.op, ast.Add) else ast.Add(); self.done = True
+        if self.hit(n, "del"): self.done = True; return ast.copy_location(ast.Pass(), n)
+        return n
+    def visit_Assign(self, n):
+        self.generic_visit(n)
+        if self.hit(n, "del"): self.done = True; return ast.copy_location(ast.Pass(), n)
+        return n
+    def visit_Expr(self, n):
+        self.generic_visit(n)
+        if self.hit(n, "del"): self.done = True; return ast.copy_location(ast.Pass(), n)
         return n
 
 def sh(cmd, env=None, timeout=1200):
@@ -116,12 +133,12 @@ def run_one(job):
 
 def main():
     ap = argparse.ArgumentParser(); ap.add_argument("--per-file", type=int, default=30); ap.add_argument("--jobs", type=int, default=10)
-    ap.add_argument("--files", default=""); ap.add_argument("--out", default=os.path.join(VERIF, ".scratch", "mutants.json")); ap.add_argument("--seed", type=int, default=1)
+    ap.add_argument("--files", default=""); ap.add_argument("--out", default=os.path.join(VERIF, ".scratch", "mutants.json")); ap.add_argument("--seed", type=int, default=1); ap.add_argument("--kinds", default="")
     a = ap.parse_args(); rng = random.Random(a.seed)
     jobs = []
     for fname in (a.files.split(",") if a.files else sorted(FILEMAP)):
         c = Collector(); c.visit(ast.parse(open(os.path.join(REPO, "chipfiring", fname)).read()))
-        sites = sorted(set(c.sites)); rng.shuffle(sites)
+        sites = sorted(set(x for x in c.sites if not a.kinds or x[0] in a.kinds.split(","))); rng.shuffle(sites)
         for i, s in enumerate(sites[:a.per_file]): jobs.append((fname, s, i))
     print("mutants: %d" % len(jobs)); sys.stdout.flush()
     out = []
